@@ -56,6 +56,7 @@ PURE = {
     "core::mem::manually_drop::ManuallyDrop::new",
     "core::clone::Clone::clone",
     "alloc::sync::Arc::new",
+    "core::option::Option::unwrap_unchecked", "core::result::Result::unwrap_unchecked",
 }
 
 # result points into the heap buffer / pointee of what arg0 points to
